@@ -31,15 +31,20 @@ Section InsertSecond.
     { destruct (amap_get N.eqb k (k2i s)) as [i'|] eqn:E; [|reflexivity]. apply Hk2i in E as [v' [h' [E|[]]]]. congruence. }
     assert (Hhnone : amap_get bytes_eqb h (h2i s) = None).
     { destruct (amap_get bytes_eqb h (h2i s)) as [i'|] eqn:E; [|reflexivity]. apply Hh2i in E as [k' [v' [E|[]]]]. congruence. }
-    unfold insert, amap_mem. rewrite Hknone, Hhnone. unfold get_node, rbind. rewrite Hg. cbn [b_node].
+    assert (Hkref : amap_get N.eqb kref (k2i s) = Some 0) by (apply Hk2i; exists vr, hr; now left).
+    unfold insert, amap_mem. rewrite Hknone, Hhnone. unfold get_node, rbind. rewrite Hg. cbn [b_node l_key].
+    rewrite Hkref. change (0 =? 0) with true. cbn [negb].
     rewrite Hlc. change (N.of_nat 1 =? 1) with true. cbv iota.
-    set (ihv := match sd with SLeft => internal_hash H h hr | SRight => internal_hash H hr h end).
     unfold insert_second. unfold bind at 1. unfold clear.
     (* three fresh indexes on the cleared blob *)
-    unfold bind at 1. unfold get_new_index at 1. cbn [free empty_blob]. cbn [extend_index blocks empty_blob length N.of_nat].
-    unfold bind at 1. unfold get_new_index at 1. cbn [free set_blocks empty_blob]. cbn [extend_index blocks set_blocks empty_blob app length].
-    unfold bind at 1. unfold get_new_index at 1. cbn [free set_blocks empty_blob]. cbn [extend_index blocks set_blocks empty_blob app length].
-    change (N.of_nat 0) with 0. change (N.of_nat 1) with 1. change (N.of_nat 2) with 2.
+    unfold bind at 1. unfold get_new_index at 1. cbn [free empty_blob].
+    unfold bind at 1. unfold get_new_index at 1. cbn [free set_blocks empty_blob].
+    unfold bind at 1. unfold get_new_index at 1. cbn [free set_blocks empty_blob]. cbn [blocks set_blocks empty_blob app].
+    change (extend_index empty_blob) with 0.
+    change (extend_index (set_blocks empty_blob [zero_block])) with 1.
+    change (extend_index (set_blocks (set_blocks empty_blob [zero_block]) [zero_block; zero_block])) with 2.
+    cbn [l_hash l_key l_value].
+    set (ihv := match sd with SLeft => internal_hash H h hr | SRight => internal_hash H hr h end).
     set (z3 := set_blocks (set_blocks (set_blocks empty_blob [zero_block]) [zero_block; zero_block]) [zero_block; zero_block; zero_block]).
     assert (Hbl0 : blen_ok z3).
     { unfold blen_ok, z3. cbn [blocks set_blocks]. repeat constructor; apply zero_block_length. }
@@ -49,7 +54,7 @@ Section InsertSecond.
     assert (Hwr : wf_block nb_r).
     { unfold nb_r, wf_block, wf_node, wf_inode. cbn. split; [unfold ihv; destruct sd; apply Hlen|]. repeat split; lia. }
     destruct (insert_entry_spec 0 nb_r z3 Hwr) as [s4 [E4 [Hget4 [Hn4 [Hbl4 [Hf4 [Hk4 Hh4]]]]]]]; [rewrite Hn0; lia|exact Hbl0|].
-    cbn [l_hash l_key l_value]. unfold bind at 1. fold ihv. fold nb_r. rewrite E4.
+    unfold bind at 1. fold nb_r. rewrite E4.
     rewrite Hn0 in Hn4. change (0 =? 3) with false in Hn4. cbv iota in Hn4.
     cbn [nb_r b_node] in Hk4, Hh4. unfold z3 in Hf4, Hk4, Hh4. cbn [free k2i h2i set_blocks empty_blob free_remove filter] in Hf4, Hk4, Hh4.
     (* the old leaf *)
@@ -96,14 +101,14 @@ Section InsertSecond.
       + intros j Hj. fold (nblocks s6) in Hj. rewrite Hn6' in Hj. rewrite Hf6, (in_perm_iff _ _ j Hsub_indices). cbn [In].
         split; [tauto|]. intros Hx. apply Hx. destruct Hoi, Hni; lia.
       + rewrite Hf6. intros j [].
-      + intros k' i'. rewrite Hk6. cbn [amap_set]. rewrite !(amap_get_set N.eqb N.eqb_spec). cbn [amap_get].
+      + intros k' i'. rewrite Hk6. rewrite !(amap_get_set N.eqb N.eqb_spec). cbn [amap_get].
         destruct (N.eqb_spec k' k) as [->|Hn1]; [|destruct (N.eqb_spec k' kref) as [->|Hn2]].
         * split; [intros [= <-]; exists v, h; apply (in_perm_iff _ _ _ Hsub_leaves); now left|].
           intros [v' [h' Hx]]. apply (in_perm_iff _ _ _ Hsub_leaves) in Hx as [Hx|[Hx|[]]]; congruence.
         * split; [intros [= <-]; exists vr, hr; apply (in_perm_iff _ _ _ Hsub_leaves); right; now left|].
           intros [v' [h' Hx]]. apply (in_perm_iff _ _ _ Hsub_leaves) in Hx as [Hx|[Hx|[]]]; congruence.
         * split; [discriminate|]. intros [v' [h' Hx]]. apply (in_perm_iff _ _ _ Hsub_leaves) in Hx as [Hx|[Hx|[]]]; congruence.
-      + intros h' i'. rewrite Hh6. cbn [amap_set]. rewrite !(amap_get_set bytes_eqb bytes_eqb_spec). cbn [amap_get].
+      + intros h' i'. rewrite Hh6. rewrite !(amap_get_set bytes_eqb bytes_eqb_spec). cbn [amap_get].
         destruct (bytes_eqb_spec h' h) as [->|Hn1]; [|destruct (bytes_eqb_spec h' hr) as [->|Hn2]].
         * split; [intros [= <-]; exists k, v; apply (in_perm_iff _ _ _ Hsub_leaves); now left|].
           intros [k' [v' Hx]]. apply (in_perm_iff _ _ _ Hsub_leaves) in Hx as [Hx|[Hx|[]]]; congruence.
@@ -119,8 +124,11 @@ Section InsertSecond.
       + unfold sub, ins_sub. destruct sd; cbn [it_ranges]; repeat split; auto; apply Hlen.
       + eapply graft_twf; [exact Htwf| |exact Hgraft]. intros v1 h1.
         destruct sd; cbn [t_join twf t_all_clean t_hash]; repeat split; auto.
-    - unfold t_insert. cbn [ot_kv erase t_kv m_mem m_get m_has_hash existsb snd].
-      destruct (N.eqb_spec k kref); [congruence|]. destruct (bytes_eqb_spec h hr); [congruence|]. cbn [orb].
-      fold (erase (ILeaf 0 kref vr hr)). rewrite Hgraft. reflexivity.
+    - unfold t_insert.
+      assert (Hm1 : m_mem k (ot_kv (Some (erase (ILeaf 0 kref vr hr)))) = false).
+      { apply m_mem_false. cbn. intros [E|[]]. congruence. }
+      assert (Hm2 : m_has_hash h (ot_kv (Some (erase (ILeaf 0 kref vr hr)))) = false).
+      { apply m_has_hash_false. cbn. intros [E|[]]. congruence. }
+      rewrite Hm1, Hm2. cbn [orb]. rewrite Hgraft. reflexivity.
   Qed.
 End InsertSecond.
